@@ -259,19 +259,32 @@ def resume_mark(ctx: Ctx) -> None:
     ex = repo.get(A.FP_EXECUTE)
     cfg = cfg_of(ex)
     fl = flow_of(repo, ex)
-    stores = [n for n in ex.own_nodes() if isinstance(n, ast.Assign) and isinstance(n.targets[0], ast.Subscript) and isinstance(n.targets[0].slice, ast.Constant) and n.targets[0].slice.value == "computed"]
-    ctx.ob(ex, stores[0] if stores else ex.node, len(stores) == 1, f"one site writes the `computed` mark (found {len(stores)})", sel="mark:site")
+
+    def mark_stores(d):
+        return [n for n in d.own_nodes() if isinstance(n, ast.Assign) and isinstance(n.targets[0], ast.Subscript) and isinstance(n.targets[0].slice, ast.Constant) and n.targets[0].slice.value == "computed"]
+
+    stores = mark_stores(ex)
+    holder, via = ex, None
+    if not stores:
+        # the marking loop may have been extracted into a function that execute calls
+        for c, ts in repo.calls_in(ex):
+            for t in ts:
+                if t.kind == "def" and t.ref.is_func and t.ref is not ex and mark_stores(t.ref):
+                    holder, via, stores = t.ref, c, mark_stores(t.ref)
+    ctx.ob(holder, stores[0] if stores else ex.node, len(stores) == 1, f"one site writes the `computed` mark (found {len(stores)})", sel="mark:site")
     xs = [c for c, ts in repo.calls_in(ex) if any(t.kind == "def" and t.ref.name == "execute_dag" for t in ts)]
     ctx.need(xs, "no executor call in execute")
     X = cfg.node_of(xs[0])
+    hcfg, hfl = cfg_of(holder), flow_of(repo, holder)
     for st in stores:
-        nid = cfg.node_of(st)
+        hnid = hcfg.node_of(st)
+        nid = cfg.node_of(via) if via is not None else hnid  # the place in execute() that marks
         facts = facts_at(cfg, nid)
         under = any(pol and isinstance(t, ast.Name) and t.id == "resume" for t, pol in facts)
-        ctx.ob(ex, st, under, "marks are written only when `resume` is truthy", sel="mark:under-resume")
+        ctx.ob(ex, via if via is not None else st, under, "marks are written only when `resume` is truthy", sel="mark:under-resume")
         # value comes from already_computed
-        ok = isinstance(st.value, ast.Call) and ALREADY in repo.callee_quals(st.value, ex)
-        ctx.ob(ex, st, ok, "the mark is the result of already_computed(<node>)", sel="mark:value")
+        ok = isinstance(st.value, ast.Call) and ALREADY in repo.callee_quals(st.value, holder)
+        ctx.ob(holder, st, ok, "the mark is the result of already_computed(<node>)", sel="mark:value")
         # receiver graph is a copy
         recv = st.targets[0].value
         g = recv
@@ -281,24 +294,30 @@ def resume_mark(ctx: Ctx) -> None:
             g = None
         fresh = False
         if g is not None:
-            rs = fl.roots(g, nid)
+            rs = hfl.roots(g, hnid)
             fresh = bool(rs) and all(r.endswith(").copy") for r in rs)
-        ctx.ob(ex, st, fresh, "marks are written on a copy of the frozen, lru_cache-shared plan graph" + ("" if fresh else " — the shared graph itself is mutated"), sel="mark:on-copy", props=["C09", "C10"])
+        ctx.ob(holder, st, fresh, "marks are written on a copy of the frozen, lru_cache-shared plan graph" + ("" if fresh else " — the shared graph itself is mutated"), sel="mark:on-copy", props=["C09", "C10"])
         # for every node, in topological order
-        lp = cfg.nodes[nid].loops
+        lp = hcfg.nodes[hnid].loops
         okl = False
         if lp:
-            it = cfg.nodes[lp[-1]].stmt.iter
-            okl = any(isinstance(c, ast.Call) and "networkx.topological_sort" in repo.callee_quals(c, ex) for c in ast.walk(it))
-            inner = [b for _, _, b in cfg.branch_conditions(nid) if cfg.in_loop(b, lp[-1])]
+            it = hcfg.nodes[lp[-1]].stmt.iter
+            okl = any(isinstance(c, ast.Call) and "networkx.topological_sort" in repo.callee_quals(c, holder) for c in ast.walk(it))
+            inner = [b for _, _, b in hcfg.branch_conditions(hnid) if hcfg.in_loop(b, lp[-1])]
             okl = okl and not inner
-        ctx.ob(ex, st, okl, "every node is marked, in topological order", sel="mark:all-nodes")
-        ctx.ob(ex, st, not cfg.can_reach(X, nid) and cfg.can_reach(nid, X), "all marking precedes the executor call", sel="mark:before-execute")
+        ctx.ob(holder, st, okl, "every node is marked, in topological order", sel="mark:all-nodes")
+        ctx.ob(ex, via if via is not None else st, not cfg.can_reach(X, nid) and cfg.can_reach(nid, X), "all marking precedes the executor call", sel="mark:before-execute")
         # the executor receives the marked graph
         a0 = xs[0].args[0] if xs[0].args else kwarg(xs[0], "dag")
         same = False
-        if isinstance(a0, ast.Name) and g is not None and a0.id == g.id:
-            same = {(s.node) for s in fl.rdefs(a0.id, X)} >= {(s.node) for s in fl.rdefs(g.id, nid)}
+        if via is None:
+            if isinstance(a0, ast.Name) and g is not None and a0.id == g.id:
+                same = {(s_.node) for s_ in fl.rdefs(a0.id, X)} >= {(s_.node) for s_ in fl.rdefs(g.id, nid)}
+        else:
+            # G = helper(...) ; executor(G): the helper returns the graph it marked
+            ret_ok = g is not None and any(isinstance(r, ast.Return) and isinstance(r.value, ast.Name) and r.value.id == g.id for r in holder.own_nodes())
+            if isinstance(a0, ast.Name):
+                same = ret_ok and any(s_.value is via for s_ in fl.rdefs(a0.id, X))
         ctx.ob(ex, xs[0], same, "the executor is given the graph that carries the marks", sel="mark:passed")
 
 
